@@ -66,9 +66,73 @@ theorem mintS_ok {s s' : SState} {a : Int} {key : AccKey} (h : mintS s a key = .
         · rename_i v' issued hadd
           split at h
           · cases h
-          · rename_i d' hd
-            injection h with h
-            exact ⟨by simpa using h1, by omega, h3, v', issued, d', hadd, hd, h.symm⟩
+          · split at h
+            · cases h
+            · rename_i d' hd
+              injection h with h
+              exact ⟨by simpa using h1, by omega, h3, v', issued, d', hadd, hd, h.symm⟩
+
+/-- the power threshold in tokens: `2⁶³` power units. -/
+def powLimit : Int := 2 ^ 63 * powerReduction
+
+theorem powLimit_lit : powLimit = 9223372036854775808000000 := by decide
+
+/-- `tokens.Quo(powerReduction)` is not an `int64` exactly from `2⁶³ · powerReduction` tokens on. -/
+theorem powerOverflows_iff (t : Int) : powerOverflows t = true ↔ powLimit ≤ t := by
+  unfold powerOverflows
+  rw [decide_eq_true_iff, powLimit_lit]
+  show (2 : Int) ^ 63 ≤ Int.tdiv t 1000000 ↔ _
+  rcases Int.lt_or_le t 0 with h | h
+  · have h1 := Int.neg_tdiv t 1000000
+    have h2 : 0 ≤ Int.tdiv (-t) 1000000 := Int.tdiv_nonneg (by omega) (by decide)
+    constructor <;> intro h' <;> omega
+  · rw [Int.tdiv_eq_ediv_of_nonneg h]
+    constructor <;> intro h' <;> omega
+
+/-- a successful mint leaves the validator below the power threshold. -/
+theorem mintS_ok_power {s s' : SState} {a : Int} {key : AccKey} (h : mintS s a key = .ok s') :
+    (s'.k.val key.2).tokens < powLimit := by
+  unfold mintS at h
+  split at h
+  · cases h
+  · split at h
+    · cases h
+    · dsimp only at h
+      split at h
+      · cases h
+      · split at h
+        · cases h
+        · rename_i v' issued hadd
+          split at h
+          · cases h
+          · rename_i hp
+            split at h
+            · cases h
+            · injection h with h
+              subst h
+              have : ¬ powLimit ≤ v'.tokens := fun hh => hp ((powerOverflows_iff _).2 hh)
+              show ((setDsh (setVal s.k key.2 v') key _).val key.2).tokens < powLimit
+              simp only [setDsh, setVal, upd, if_true]
+              omega
+
+/-- a failing mint is an error of the branch (a panic there is recovered by `ApplyFuncIfNoError`), never a panic of the
+caller. -/
+theorem mintS_no_panic {s : SState} {a : Int} {key : AccKey} : mintS s a key ≠ .error .panic := by
+  unfold mintS
+  split
+  · intro h; cases h
+  · split
+    · intro h; cases h
+    · dsimp only
+      split
+      · intro h; cases h
+      · split
+        · intro h; cases h
+        · split
+          · intro h; cases h
+          · split
+            · intro h; cases h
+            · intro h; cases h
 
 theorem mintS_bank {s s' : SState} {a : Int} {key : AccKey} (h : mintS s a key = .ok s') : BankOnly s.b s'.b := by
   obtain ⟨_, _, _, v', issued, d', _, _, hs'⟩ := mintS_ok h
